@@ -198,3 +198,40 @@ func ZZ_C16_Defaults() {
 	zipSendProxyThread = nil
 	zzvf.Reach("defaults")
 }
+
+// a record that cannot be serialised (zero-value record without its tag map: Append recovers from
+// the failure and drops it) in the middle of well-formed ones: the packs emitted afterwards still
+// count exactly the records they contain and carry every well-formed record once, in order
+//vf: paths=20000
+func ZZ_C16_UnserialisableRecord() {
+	c := &zzClient{retain: true}
+	s := zzSender(c, 100000, 1000000, zzvf.IntRange(0, 400))
+	pos := zzvf.Choose(3) // the bad record comes first, in the middle, or last
+	var sent []*pack.LogSinkPack
+	t := int64(zzvf.IntRange(1, 1000000))
+	for i := 0; i < 3; i++ {
+		if i == pos {
+			bad := &pack.LogSinkPack{}
+			bad.Time = t
+			failed := zzvf.Panics(func() { s.Append(bad) })
+			zzvf.Assert(!failed, "unserialisable/append-does-not-fail")
+			continue
+		}
+		r := zzRecord(i)
+		r.Time = t
+		s.Append(r)
+		sent = append(sent, r)
+	}
+	s.sendAndClear()
+	recs, okCount, okStatus, _ := zzDecode(c, true)
+	zzvf.Assert(okStatus, "unserialisable/compressed-payload-decompresses")
+	zzvf.Assert(okCount, "unserialisable/record-count-equals-records-contained")
+	ok := len(recs) == len(sent)
+	for i := range sent {
+		if i < len(recs) {
+			ok = zzvf.And(ok, zzvf.Same(recs[i], pack.Pack(sent[i])))
+		}
+	}
+	zzvf.Assert(ok, "unserialisable/every-well-formed-record-exactly-once-in-order")
+	zzvf.Reach("unserialisable")
+}
